@@ -2665,7 +2665,7 @@ class sptensor:
                 subs = self.subs[idx.transpose()[0]]
             return sptensor(
                 subs,
-                True * np.ones((self.subs.shape[0], 1)).astype(self.vals.dtype),
+                True * np.ones((subs.shape[0], 1)).astype(self.vals.dtype),
                 self.shape,
             )
 
@@ -2688,12 +2688,10 @@ class sptensor:
             # Find where their nonzeros intersect
             # TODO consider if intersect rows should return 3 args so we don't have to
             #  call it twice
-            nzsubsIdx = tt_intersect_rows(self.subs, other.subs)
-            nzsubs = self.subs[nzsubsIdx]
-            iother = tt_intersect_rows(other.subs, self.subs)
-            equal_subs = self.vals[nzsubsIdx] == other.vals[iother]
             znzsubs = np.empty(shape=(0, other.ndims), dtype=int)
-            if equal_subs.size > 0:
+            if self.nnz > 0 and other.nnz > 0:
+                nzsubs = self.subs[tt_intersect_rows(self.subs, other.subs)]
+                equal_subs = self.extract(nzsubs) == other.extract(nzsubs)
                 znzsubs = nzsubs[(equal_subs).transpose()[0], :]
 
             return sptensor(
@@ -2709,12 +2707,14 @@ class sptensor:
         if isinstance(other, ttb.tensor):
             # Find where their zeros interact
             otherzerosubs, _ = (other == 0).find()
-            zzerosubs = otherzerosubs[(self[otherzerosubs] == 0).transpose()[0], :]
+            zzerosubs = otherzerosubs[
+                (self.extract(otherzerosubs) == 0).transpose()[0], :
+            ]
 
             # Find where their nonzeros intersect
             znzsubs = np.empty(shape=(0, other.ndims), dtype=int)
             if self.nnz > 0:
-                othervals = other[self.subs]
+                othervals = np.atleast_1d(other[self.subs])
                 znzsubs = self.subs[(othervals[:, None] == self.vals).transpose()[0], :]
 
             return sptensor(
